@@ -2153,6 +2153,12 @@ def c01h(F, R):
     for fld, what in (("reg_values_out", "register"), ("memory_values_out", "memory")):
         seed = "reg_values_in" if what == "register" else "memory_values_in"
         roots = {s_["pat"]["name"] for s_ in walk(body, pats=False) if s_.get("k") == "Let" and s_["pat"].get("k") == "PBinding" and s_.get("init") and peel(s_["init"]).get("k") == "MethodCall" and peel(s_["init"])["name"] == seed}
+        # ... and the local that is published as the out-fact (it may be built from such a copy)
+        for m_ in walk(body, pats=False):
+            if m_.get("k") in ("MethodCall", "Call") and callee_of(m_) in [p_ for p_, f_ in setters.items() if f_ == fld]:
+                a_ = call_recv_args(m_)[1]
+                if a_ and peel(a_[-1]).get("k") == "Path" and peel(a_[-1]).get("res_kind") == "Local":
+                    roots.add(peel(a_[-1])["res"])
         hits = []
         for m in walk(body, pats=False):
             if m.get("k") == "MethodCall" and ekey(m["recv"]).lstrip("&*") in roots:
